@@ -143,7 +143,7 @@ func runUnmarshalSeq(pkt bool, bufs [][]byte) Outcome {
 func init() {
 	register(&Prop{
 		ID:       "C02",
-		Rule:     "sequences of 1-3 byte strings decoded into one receiver: random, truncated and bit-flipped valid packets, structured hostile extension blocks (boundary alphabet 00/10/1F/F0/FF, declared lengths 0-200 words), valid packets; all strings of length <= 2 (quick) / <= 3 (thorough) after 24 first-byte classes; non-trivial = at least one step accepted",
+		Rule:     "sequences of 1-3 byte strings (every fifth case: 3-6 mostly valid packets with varying CSRC counts and extension kinds) decoded into one receiver: random, truncated and bit-flipped valid packets, structured hostile extension blocks (boundary alphabet 00/10/1F/F0/FF, declared lengths 0-200 words), valid packets; all strings of length <= 2 (quick) / <= 3 (thorough) after 24 first-byte classes; non-trivial = at least one step accepted",
 		Quick:    8000,
 		Thorough: 600000,
 		Gen: func(r *RNG, tier string, n int, emit func(op int, toks ...Tok)) {
@@ -174,6 +174,19 @@ func init() {
 				c := r.Fork(uint64(i))
 				k := 1 + c.Intn(3)
 				bufs := TList{}
+				if i%5 == 4 {
+					// a run of 3-6 mostly valid packets into one receiver: CSRC counts and extension
+					// presence go up and down from packet to packet
+					k = 3 + c.Intn(4)
+					for j := 0; j < k; j++ {
+						if c.Intn(8) == 0 {
+							bufs = append(bufs, TB(hostileBuf(c)))
+						} else {
+							bufs = append(bufs, TB(wfWire(c)))
+						}
+					}
+					k = 0
+				}
 				for j := 0; j < k; j++ {
 					bufs = append(bufs, TB(hostileBuf(c)))
 				}
